@@ -415,7 +415,7 @@ func observations(rng *rand.Rand, pool, pool2 []int, serial uint64) {
 	rig.P.VerifHandleMessage(rig.Ctx, mObserved.Pub)
 	rig.DrainSend()
 	rig.TakeLoopback(0)
-	variants := []string{"valid", "forged", "sig-bitflip", "wrong-addr", "nonmember", "sig64", "sig66", "sig-empty", "hash-short", "hash-long", "hash-nil", "addr-nil", "addr-long"}
+	variants := []string{"valid", "forged", "sig-bitflip", "wrong-addr", "nonmember", "sig64", "sig66", "sig-empty", "hash-short", "hash-long", "hash-nil", "addr-nil", "addr-long", "recid+27"}
 	deliver := func(phase string, m *proc.Msg, k int, variant string, other ethcommon.Address) {
 		o := proc.MkObs(m, m.Digest, k, variant, rng, other)
 		_, want := md.ObsAcceptable(o)
